@@ -275,9 +275,14 @@ package fiber
 // correct until the handler returns: when decoding replaced the request's raw body, what Body puts back is
 // the saved original (restores-saved-original).
 //@ func (*DefaultCtx).Body
-//@   props C06 C07
+//@   props C06 C07 C05
 //@   ensures [C06] immutable-new-array: old(c.app.config.Immutable) ==> freshBytes(result)
 //@   atcall @fasthttp.(*Request).SetBodyRaw: restores-saved-original: arg1 == originalBody && originalBody != nil
+// [C05] what is put back as the request's raw body is the copy tryDecodeBodyInOrder made (clause
+// saved-original-in-an-array-of-this-call there), in an array that did not exist when Body() was entered: not a view of
+// the request's body buffer, which fasthttp may have handed to its pool when the first decoded layer replaced it.
+//@   atcall @fasthttp.(*Request).SetBodyRaw: [C05] puts-back-a-copy-not-a-view-of-the-request-buffer: arr(originalBody) != 0 && !old(allocated(arr(originalBody)))
+//@   atcall @fasthttp.(*Request).SetBodyRaw: [C05] on-the-request-of-this-context: req == c.fasthttp.Request
 
 // ---------------------------------------------------------------------------------------------
 // Accessors that return maps: every key and every value is stable
@@ -399,60 +404,143 @@ package fiber
 // ---------------------------------------------------------------------------------------------
 //@ macro wfImmutableReq(r) = r.ctx.app.config.Immutable ==> copies(r.ctx.app.getString)
 //@ func (*DefaultReq).OriginalURL
-//@   props C06
+//@   props C06 C07
 //@   requires wf-immutable: wfImmutableReq(r)
 //@   ensures immutable-stable: old(r.ctx.app.config.Immutable) ==> stable(result)
+//@   safety nil
+//@   pure
+//@   requires [C07] bound-helper: boundHelper(r)
+//@   atcall (*DefaultCtx).OriginalURL: [C07] on-the-bound-context: c == r.ctx && liveCtx(c)
+//@   ensures [C07] forwards-to-OriginalURL: called((*DefaultCtx).OriginalURL)
+//@   ensures [C07] returns-its-result: result == last((*DefaultCtx).OriginalURL)
 //@ func (*DefaultReq).Protocol
-//@   props C06
+//@   props C06 C07
 //@   requires wf-immutable: wfImmutableReq(r)
 //@   ensures immutable-stable: old(r.ctx.app.config.Immutable) ==> stable(result)
+//@   safety nil
+//@   pure
+//@   requires [C07] bound-helper: boundHelper(r)
+//@   atcall (*DefaultCtx).Protocol: [C07] on-the-bound-context: c == r.ctx && liveCtx(c)
+//@   ensures [C07] forwards-to-Protocol: called((*DefaultCtx).Protocol)
+//@   ensures [C07] returns-its-result: result == last((*DefaultCtx).Protocol)
 //@ func (*DefaultReq).Host
-//@   props C06 C10
+//@   props C06 C10 C07
 //@   requires wf-immutable: wfImmutableReq(r)
 //@   ensures [C06] immutable-stable: old(r.ctx.app.config.Immutable) ==> stable(result)
 //@   ensures [C10] untrusted-uri-host: !trusted(r.ctx, epoch) ==> result == uriHost(reqURI(r.ctx.fasthttp.Request, epoch), epoch)
+//@   safety nil
+//@   pure
+//@   requires [C07] bound-helper: boundHelper(r)
+//@   atcall (*DefaultCtx).Host: [C07] on-the-bound-context: c == r.ctx && liveCtx(c)
+//@   ensures [C07] forwards-to-Host: called((*DefaultCtx).Host)
+//@   ensures [C07] returns-its-result: result == last((*DefaultCtx).Host)
 //@ func (*DefaultReq).Cookies
-//@   props C06
+//@   props C06 C07
 //@   requires wf-immutable: wfImmutableReq(r)
 //@   ensures immutable-stable: old(r.ctx.app.config.Immutable) ==> stable(result) || orDefault(result, defaultValue)
+//@   safety nil
+//@   pure
+//@   requires [C07] bound-helper: boundHelper(r)
+//@   atcall (*DefaultCtx).Cookies: [C07] on-the-bound-context: c == r.ctx && liveCtx(c)
+//@   atcall (*DefaultCtx).Cookies: [C07] same-arguments: key == old(key) && defaultValue == old(defaultValue)
+//@   ensures [C07] forwards-to-Cookies: called((*DefaultCtx).Cookies)
+//@   ensures [C07] returns-its-result: result == last((*DefaultCtx).Cookies)
 //@ func (*DefaultReq).FormValue
-//@   props C06
+//@   props C06 C07
 //@   requires wf-immutable: wfImmutableReq(r)
 //@   ensures immutable-stable: old(r.ctx.app.config.Immutable) ==> stable(result) || orDefault(result, defaultValue)
+//@   safety nil
+//@   pure
+//@   requires [C07] bound-helper: boundHelper(r)
+//@   atcall (*DefaultCtx).FormValue: [C07] on-the-bound-context: c == r.ctx && liveCtx(c)
+//@   atcall (*DefaultCtx).FormValue: [C07] same-arguments: key == old(key) && defaultValue == old(defaultValue)
+//@   ensures [C07] forwards-to-FormValue: called((*DefaultCtx).FormValue)
+//@   ensures [C07] returns-its-result: result == last((*DefaultCtx).FormValue)
 //@ func (*DefaultReq).Get
-//@   props C06
+//@   props C06 C07
 //@   requires wf-immutable: wfImmutableReq(r)
 //@   ensures immutable-stable: old(r.ctx.app.config.Immutable) ==> stable(result) || orDefault(result, defaultValue)
+//@   safety nil
+//@   pure
+//@   requires [C07] bound-helper: boundHelper(r)
+//@   atcall (*DefaultCtx).Get: [C07] on-the-bound-context: c == r.ctx && liveCtx(c)
+//@   atcall (*DefaultCtx).Get: [C07] same-arguments: key == old(key) && defaultValue == old(defaultValue)
+//@   ensures [C07] forwards-to-Get: called((*DefaultCtx).Get)
+//@   ensures [C07] returns-its-result: result == last((*DefaultCtx).Get)
+//@   ensures [C07] header-value: len(defaultValue) == 0 ==> result == reqHeader(r.ctx, key, epoch)
+//@   ensures [C07] header-value-or-default: len(defaultValue) > 0 ==> result == ite(reqHeader(r.ctx, key, epoch) == "", defaultValue[0], reqHeader(r.ctx, key, epoch))
 //@ func (*DefaultReq).Query
-//@   props C06
+//@   props C06 C07
 //@   requires wf-immutable: wfImmutableReq(r)
 //@   ensures immutable-stable: old(r.ctx.app.config.Immutable) ==> stable(result) || orDefault(result, defaultValue)
+//@   safety nil
+//@   pure
+//@   requires [C07] bound-helper: boundHelper(r)
+//@   atcall (*DefaultCtx).Query: [C07] on-the-bound-context: c == r.ctx && liveCtx(c)
+//@   atcall (*DefaultCtx).Query: [C07] same-arguments: key == old(key) && defaultValue == old(defaultValue)
+//@   ensures [C07] forwards-to-Query: called((*DefaultCtx).Query)
+//@   ensures [C07] returns-its-result: result == last((*DefaultCtx).Query)
 //@ func (*DefaultReq).Params
-//@   props C06
+//@   props C06 C07
 //@   requires wf-immutable: wfImmutableReq(r)
 //@   requires path-original-wf: r.ctx.app.config.Immutable ==> stable(r.ctx.pathOriginal)
 //@   ensures immutable-stable: old(r.ctx.app.config.Immutable) ==> stable(result) || orDefault(result, defaultValue)
+//@   safety nil
+//@   requires [C07] bound-helper: boundHelper(r)
+//@   atcall (*DefaultCtx).Params: [C07] on-the-bound-context: c == r.ctx && liveCtx(c)
+//@   atcall (*DefaultCtx).Params: [C07] same-arguments: key == old(key) && defaultValue == old(defaultValue)
+//@   ensures [C07] forwards-to-Params: called((*DefaultCtx).Params)
+//@   ensures [C07] returns-its-result: result == last((*DefaultCtx).Params)
 //@ func (*DefaultReq).IPs
-//@   props C06 C10
+//@   props C06 C10 C07
 //@   requires wf-immutable: wfImmutableReq(r)
 //@   ensures [C06] immutable-stable: old(r.ctx.app.config.Immutable) ==> forall(k, 0, len(result), stable(result[k]))
 //@   ensures [C10] valid-ips: old(r.ctx.app.config.EnableIPValidation) ==> forall(k, 0, len(result), isIPv4(result[k]) || isIPv6(result[k]))
 //@   ensures [C10] pieces-of-x-forwarded-for-whoever-the-peer: forall(k, 0, len(result), pieceOf(result[k], reqHeader(r.ctx, HeaderXForwardedFor, epoch)))
+//@   safety nil
+//@   modifies heap(E_string)
+//@   requires [C07] bound-helper: boundHelper(r)
+//@   atcall (*DefaultCtx).IPs: [C07] on-the-bound-context: c == r.ctx && liveCtx(c)
+//@   ensures [C07] forwards-to-IPs: called((*DefaultCtx).IPs)
+//@   ensures [C07] returns-its-result: result == last((*DefaultCtx).IPs)
 //@ func (*DefaultReq).Subdomains
-//@   props C06 C10
+//@   props C06 C10 C07
 //@   requires wf-immutable: wfImmutableReq(r)
 //@   requires offset-in-domain: len(offset) > 0 ==> offset[0] >= 0
 //@   ensures [C06] immutable-stable: old(r.ctx.app.config.Immutable) ==> forall(k, 0, len(result), stable(result[k]))
 //@   ensures [C10] untrusted-pieces-of-uri-host: !trusted(r.ctx, epoch) ==> subdomainsOf(result, uriHost(reqURI(r.ctx.fasthttp.Request, epoch), epoch), ite(len(offset) > 0, offset[0], 2))
+//@   safety nil
+//@   pure
+//@   requires [C07] bound-helper: boundHelper(r)
+//@   atcall (*DefaultCtx).Subdomains: [C07] on-the-bound-context: c == r.ctx && liveCtx(c)
+//@   atcall (*DefaultCtx).Subdomains: [C07] same-arguments: offset == old(offset)
+//@   ensures [C07] forwards-to-Subdomains: called((*DefaultCtx).Subdomains)
+//@   ensures [C07] returns-its-result: result == last((*DefaultCtx).Subdomains)
 //@ func (*DefaultReq).Queries
-//@   props C06
+//@   props C06 C07
 //@   requires wf-immutable: wfImmutableReq(r)
 //@   ensures immutable-stable: old(r.ctx.app.config.Immutable) ==> forallS(k, indom(result, k) ==> stable(k) && stable(result[k]))
+//@   safety nil
+//@   requires [C07] bound-helper: boundHelper(r)
+//@   atcall (*DefaultCtx).Queries: [C07] on-the-bound-context: c == r.ctx && liveCtx(c)
+//@   ensures [C07] forwards-to-Queries: called((*DefaultCtx).Queries)
+//@   ensures [C07] returns-its-result: result == last((*DefaultCtx).Queries)
 //@ func (*DefaultReq).Body
-//@   props C06
+//@   props C06 C07
 //@   requires wf-immutable: wfImmutableReq(r)
 //@   ensures immutable-stable: old(r.ctx.app.config.Immutable) ==> freshBytes(result)
+//@   safety nil
+//@   requires [C07] bound-helper: boundHelper(r)
+//@   atcall (*DefaultCtx).Body: [C07] on-the-bound-context: c == r.ctx && liveCtx(c)
+//@   ensures [C07] forwards-to-Body: called((*DefaultCtx).Body)
+//@   ensures [C07] returns-its-result: result == last((*DefaultCtx).Body)
 //@ func (*DefaultReq).BodyRaw
-//@   props C06
+//@   props C06 C07
 //@   requires wf-immutable: wfImmutableReq(r)
 //@   ensures immutable-stable: old(r.ctx.app.config.Immutable) ==> freshBytes(result)
+//@   safety nil
+//@   pure
+//@   requires [C07] bound-helper: boundHelper(r)
+//@   atcall (*DefaultCtx).BodyRaw: [C07] on-the-bound-context: c == r.ctx && liveCtx(c)
+//@   ensures [C07] forwards-to-BodyRaw: called((*DefaultCtx).BodyRaw)
+//@   ensures [C07] returns-its-result: result == last((*DefaultCtx).BodyRaw)
